@@ -51,7 +51,8 @@ def cases(draw):
     spec = draw(model_specs(prof))
     c = {"spec": spec.to_json(), "law": law, "infeasible_ok": infeasible_ok, "via_decorator": draw(st.booleans()),
          "a": draw(st.integers(1, 100)) / 10, "b": draw(st.integers(-50, 50)) / 10,
-         "extra_T": draw(st.sampled_from([1, 2, 3, 3, 8, 10]))}
+         "extra_T": draw(st.sampled_from([1, 2, 3, 3, 8, 10])),
+         "beta_override": draw(st.sampled_from([None, None, None, 1.0, 1.25, 1.6, 0.05]))}
     if law == "degenerate":
         c["agents"] = draw(raw_agents(2, 6))
         c["seed"] = draw(st.integers(0, 2**31 - 1))
@@ -135,6 +136,8 @@ def check(case):
     spec = Spec.from_json(case["spec"])
     if law == "beta0":
         spec.params["beta"] = 0.0
+    elif case.get("beta_override") is not None:
+        spec.params["beta"] = float(case["beta_override"])
     if law == "degenerate":
         if not spec.stochastic_states():
             return Outcome(status="skip", reason="no_stochastic_state", digest=dg)
@@ -149,7 +152,7 @@ def check(case):
     T = spec.n_periods
     beta = float(spec.params["beta"])
     msgs, nt = [], False
-    cl = [f"law_{law}"] + model_classes(spec, ref) + (["states_of_value_minus_inf"] if nonfinite else [])
+    cl = [f"law_{law}"] + (["beta_ge_1"] if beta >= 1 else []) + model_classes(spec, ref) + (["states_of_value_minus_inf"] if nonfinite else [])
     base = lcm_solve(spec)
     if law == "affine":
         a, b = case["a"], case["b"]
